@@ -130,7 +130,12 @@ def one_dump(ctx, rng, idx, pending):
             rep.fail('recorded-path-has-no-file', case, {'resource': r['name'], 'path': r['path']})
             return
         data = read(r['path'])
-        nrows = count_rows(fmt, data)
+        try:
+            nrows = count_rows(fmt, data)
+        except Exception as e:  # noqa
+            rep.fail('data-file-not-readable', case, {'resource': r['name'], 'path': r['path'], 'error': repr(e)[:200],
+                                                      'head': data[:80].decode('utf-8', 'replace')})
+            return
         digest = hashlib.md5(data).hexdigest()
         files.append({'size': len(data), 'digest': digest, 'rows': nrows})
         tot_bytes += len(data)
